@@ -12,6 +12,12 @@
 (*   hang   k                processing did not return                      *)
 (*   stall  what n consumer done   a child raised n events then printed a   *)
 (*                           marker; done = the marker reached the screen   *)
+(*   conc   n done how       the host resized the terminal n times while a  *)
+(*                           child wrote without pause (the scheduler, not  *)
+(*                           the driver, interleaves them); the child then  *)
+(*                           printed a marker; done = it reached the screen *)
+(*                           (how = the way processing ended otherwise: a   *)
+(*                           panic, a dead process, no more progress)       *)
 EXTENDS EmuSafe, TLC, Json, IOUtils
 
 Trace == ndJsonDeserialize(IOEnv.TRACE)
@@ -50,6 +56,10 @@ Next ==
         /\ UNCHANGED <<R, C>>
         /\ IF e.done THEN UNCHANGED failed
            ELSE /\ Reject(e, "stall", [what |-> e.what, n |-> e.n, consumer |-> e.consumer]) /\ failed' = TRUE
+     ELSE IF e.ev = "conc" THEN
+        /\ UNCHANGED <<R, C>>
+        /\ IF e.done THEN UNCHANGED failed
+           ELSE /\ Reject(e, "stopped", [n |-> e.n, how |-> e.how]) /\ failed' = TRUE
      ELSE UNCHANGED <<R, C, failed>>
 
 Spec == Init /\ [][Next]_vars
